@@ -5,6 +5,8 @@ cd "$(dirname "$0")/.."
 GEN="lean/EmuVerif/Drv/All.lean lean/EmuVerif.lean MANIFEST.json known_findings.json"
 git merge --no-commit --no-ff "$1" >/dev/null 2>&1 || true
 for f in $GEN; do git checkout --ours -- $f 2>/dev/null || true; done
+# per-package findings files: the package branch is authoritative
+for f in $(git diff --name-only --diff-filter=U | grep "^known_findings.d/" || true); do git checkout --theirs -- $f; done
 # evidence is rewritten by the next run of the check on main: keep ours on conflict
 for f in $(git diff --name-only --diff-filter=U | grep "^evidence/" || true); do git checkout --ours -- $f; done
 python3 tools/gen_index.py >/dev/null
